@@ -25,7 +25,7 @@ echo "demo_with_exit=$w demo_without_exit=$wo suite_exit=$s"
 cd /verif
 echo "--- check $id quick against the seeded tree"
 cp evidence/$id.json /tmp/ev-keep-$id-$$.json 2>/dev/null
-VERIF_REPO=$wt ./check $id quick "$@" > $out/check.log 2>&1; c=$?
+VERIF_REPO=$wt timeout -k 10 2400 ./check $id quick "$@" > $out/check.log 2>&1; c=$?
 # the evidence file describes /repo, not a seeded tree: put the last one back
 [ -f /tmp/ev-keep-$id-$$.json ] && mv /tmp/ev-keep-$id-$$.json evidence/$id.json
 grep -v "^JOB-RESULT" $out/check.log | grep "violation detail\|^C[0-9][0-9] \|KNOWN\|engine error" | cut -c1-300 | head -8
